@@ -519,7 +519,9 @@ fn do_write(conn: &Conn, side: usize, cx: &mut Context<'_>, data: &[u8]) -> Poll
     if data.is_empty() {
         return Poll::Ready(Ok(0));
     }
-    let room = if dir.stall { 0 } else { dir.cap.saturating_sub(dir.buffered()) };
+    // a scripted (raw) peer's writes are never held back: its own blocking is invisible to the
+    // library and would only dead-lock harness tasks that play both roles
+    let room = if io.raw { usize::MAX } else if dir.stall { 0 } else { dir.cap.saturating_sub(dir.buffered()) };
     if room == 0 {
         dir.write_pendings += 1;
         let old = dir.wr_waker.replace(cx.waker().clone());
